@@ -1991,6 +1991,126 @@ def rule_exit_results_are_tested_before_the_loop_goes_round(eng, rep, rule="C07-
                     % (short(cfg.ast_of(b), 50), "overwritten" if p is None else "carried into the next iteration"), path=cfg.describe_path(p or p2))
 
 
+def _exit_returning(eng):
+    """fid -> set of positions (None = the value itself, i = position i of a returned tuple) at which the function can hand back an ExitInformation object:
+    a return of a local that some statement of the function binds to ExitInformation(..) or to such a position of another exit-returning call (fix-point)."""
+    out = {}
+    fns = [f for f in eng.prog.functions.values() if not f.is_lambda and f.module in ("controller", "solver")]
+
+    def binds_exit(fi, name):
+        for node in eng.prog.own_nodes(fi):
+            if not isinstance(node, ast.Assign):
+                continue
+            for t in node.targets:
+                if isinstance(t, ast.Name) and t.id == name:
+                    v = node.value
+                    if isinstance(v, ast.Call):
+                        ci = eng.res.calls.get(id(v))
+                        if ci is not None and any(tt.cls == "ExitInformation" for tt in ci.targets if ci.kind == "CTOR"):
+                            return True
+                        if ci is not None and any(None in out.get(tt.fid, ()) for tt in ci.targets):
+                            return True
+                elif isinstance(t, (ast.Tuple, ast.List)) and isinstance(node.value, ast.Call):
+                    ci = eng.res.calls.get(id(node.value))
+                    for i, el in enumerate(t.elts):
+                        if isinstance(el, ast.Name) and el.id == name and ci is not None and any(i in out.get(tt.fid, ()) for tt in ci.targets):
+                            return True
+        return False
+
+    changed = True
+    while changed:
+        changed = False
+        for fi in fns:
+            cur = set(out.get(fi.fid, ()))
+            for node in eng.prog.own_nodes(fi):
+                if not isinstance(node, ast.Return) or node.value is None:
+                    continue
+                v = node.value
+                if isinstance(v, ast.Name) and binds_exit(fi, v.id):
+                    cur.add(None)
+                elif isinstance(v, ast.Call):
+                    ci = eng.res.calls.get(id(v))
+                    if ci is not None and (any(tt.cls == "ExitInformation" for tt in ci.targets if ci.kind == "CTOR") or any(None in out.get(tt.fid, ()) for tt in ci.targets)):
+                        cur.add(None)
+                elif isinstance(v, ast.Tuple):
+                    for i, el in enumerate(v.elts):
+                        if isinstance(el, ast.Name) and binds_exit(fi, el.id):
+                            cur.add(i)
+            if cur != set(out.get(fi.fid, ())):
+                out[fi.fid] = cur
+                changed = True
+    return out
+
+
+def rule_exits_are_handed_on_by_controller_methods(eng, rep, rule="C07-19b.an-exit-reported-by-a-callee-is-handed-on-to-the-caller"):
+    """The Controller methods between the main loop and the objective (geometry_step, soft_restart, the initialisers, move_furthest_points, ..) learn from their callees
+    that the budget is exhausted / the objective is small enough / a system was singular through the exit object those return.  A method that binds such an exit and
+    then carries on (test inverted, `return None` at the end) makes the main loop believe the step succeeded: the run continues past its exit condition with points
+    that were never evaluated.  For every binding of an exit from a call: with the edges on which the exit is None removed, no path from the binding reaches the end of the
+    method, another binding of the same variable, or the binding itself again without passing a `return` that hands the exit back."""
+    rets_exit = _exit_returning(eng)
+    n = 0
+    for fi in sorted(eng.prog.functions.values(), key=lambda f: f.fid):
+        if fi.is_lambda or fi.cls != "Controller" or not rets_exit.get(fi.fid):
+            continue
+        cfg = eng.cfg(fi)
+        binds = []
+        for k, d in cfg.g.nodes(data=True):
+            st = d["ast"]
+            if d["kind"] != "stmt" or not isinstance(st, ast.Assign) or not isinstance(st.value, ast.Call) or len(st.targets) != 1:
+                continue
+            ci = eng.res.calls.get(id(st.value))
+            if ci is None:
+                continue
+            t = st.targets[0]
+            if isinstance(t, ast.Name) and any(None in rets_exit.get(tt.fid, ()) for tt in ci.targets):
+                binds.append((k, t.id))
+            elif isinstance(t, (ast.Tuple, ast.List)):
+                for i, el in enumerate(t.elts):
+                    if isinstance(el, ast.Name) and any(i in rets_exit.get(tt.fid, ()) for tt in ci.targets):
+                        binds.append((k, el.id))
+        for (b, var) in binds:
+            n += 1
+            site = eng.where(fi, cfg.ast_of(b))
+            def hands_on(k, d, var=var):
+                if d["kind"] != "stmt" or not isinstance(d["ast"], ast.Return) or d["ast"].value is None:
+                    return False
+                v = d["ast"].value
+                if var in mentions(v):
+                    return True
+                # the exit handed on in another form: a fresh ExitInformation(..) returned on this branch (directly or through a local)
+                cands = [v]
+                if isinstance(v, ast.Name):
+                    cands = [cfg.ast_of(x).value for x in cfg.defs_reaching(d["ast"], v.id) if isinstance(cfg.ast_of(x), ast.Assign)]
+                return bool(cands) and all(isinstance(c, ast.Call) and eng.res.calls.get(id(c)) is not None and eng.res.calls[id(c)].kind == "CTOR"
+                                           and any(tt.cls == "ExitInformation" for tt in eng.res.calls[id(c)].targets) for c in cands)
+            handing = set(k for k, d in cfg.g.nodes(data=True) if hands_on(k, d))
+            rebinds = set(k for (k, v2) in binds if v2 == var and k != b)
+
+            def edge_ok(a, m, e, var=var):
+                if cfg.kind(a) == "cond" and e.get("label") in (True, False):
+                    at = atom_of(cfg.ast_of(a), e["label"])
+                    if at.op == "is" and isinstance(at.lhs, ast.Name) and at.lhs.id == var and is_none(at.rhs):
+                        return False          # on this edge there is no exit to hand on
+                    if at.op == "false" and isinstance(at.lhs, ast.Name) and at.lhs.id == var:
+                        return False          # `if not exit:` -- an ExitInformation object is truthy, None is not
+                return True
+            bad = None
+            for tgt in [cfg.exit] + sorted(rebinds) + [b]:
+                p = cfg.path_avoiding(b, tgt, handing | (rebinds - {tgt}), edge_ok=edge_ok)
+                if p is not None and len(p) > 1:
+                    bad = (tgt, p)
+                    break
+            if bad is None:
+                rep.ok(rule, site, "`%s`: whenever the exit is not None it is returned to the caller before the method ends or binds `%s` again" % (short(cfg.ast_of(b), 50), var))
+            else:
+                what = "the end of the method" if bad[0] == cfg.exit else ("the next binding of `%s`" % var)
+                rep.bad(rule, site, "%s|exit-not-handed-on|%s" % (fi.fid, short(cfg.ast_of(b).value.func, 30)),
+                        "`%s`: with a non-None exit, %s can be reached without returning it: the caller is told the step succeeded although the callee stopped (budget exhausted, "
+                        "objective small enough, singular system)" % (short(cfg.ast_of(b), 50), what), path=cfg.describe_path(bad[1])[-8:])
+    rep.require_count(rule, "bindings of an exit from a call in Controller methods", n, 6)
+
+
 # --------------------------------------------------------------------------------------------- C07-20
 def rule_orthogonalised_vectors_are_tested_before_normalising(eng, rep, rule="C07-20.a-vector-orthogonalised-against-a-basis-is-tested-before-it-is-normalised"):
     """v := v - (v.q) q for every column q of an orthonormal basis leaves exactly 0 when the basis already spans the space (n = 1 with one direction; a regression set
@@ -2235,6 +2355,135 @@ def rule_format_conformance(eng, rep, rule="C07-21.format-strings-bind-their-arg
     rep.require_count(rule, "format expressions of the package", n, 20)
 
 
+def _eval_small(e, env):
+    """Evaluate a comparison / boolean expression over names bound in env (ints and None) -- decision-table evaluation of a guard, nothing of the package is run."""
+    if isinstance(e, ast.Constant):
+        return e.value
+    if isinstance(e, ast.Name):
+        if e.id not in env:
+            raise AnalysisError("name %s outside the table" % e.id)
+        return env[e.id]
+    if isinstance(e, ast.BoolOp):
+        r = None
+        for v in e.values:          # short-circuit, as Python evaluates it
+            r = _eval_small(v, env)
+            if (isinstance(e.op, ast.And) and not r) or (isinstance(e.op, ast.Or) and r):
+                return r
+        return r
+    if isinstance(e, ast.UnaryOp) and isinstance(e.op, ast.Not):
+        return not _eval_small(e.operand, env)
+    if isinstance(e, ast.Compare):
+        left = _eval_small(e.left, env)
+        res = True
+        for op, c in zip(e.ops, e.comparators):
+            right = _eval_small(c, env)
+            if isinstance(op, ast.Is):
+                r = left is right
+            elif isinstance(op, ast.IsNot):
+                r = left is not right
+            elif left is None or right is None:
+                raise TypeError("ordering comparison with None")
+            elif isinstance(op, ast.Lt):
+                r = left < right
+            elif isinstance(op, ast.LtE):
+                r = left <= right
+            elif isinstance(op, ast.Gt):
+                r = left > right
+            elif isinstance(op, ast.GtE):
+                r = left >= right
+            elif isinstance(op, ast.Eq):
+                r = left == right
+            elif isinstance(op, ast.NotEq):
+                r = left != right
+            else:
+                raise AnalysisError("operator outside the table")
+            res = res and r
+            left = right
+        return res
+    raise AnalysisError("expression form outside the table: %s" % ekey(e)[:40])
+
+
+def rule_range_validators_test_both_ends(eng, rep, rule="C07-5c.range-validators-accept-exactly-lower-le-value-le-upper"):
+    """check_integer / check_float (every module-level validator of params with `lower` and `upper` parameters): for a value of the right type the answer is
+    (lower is None or value >= lower) and (upper is None or value <= upper).  The returned expression is evaluated over the table value in {0,1,2} x lower in {None,1} x
+    upper in {None,1} (18 rows) and compared with that specification: `or` for `and`, a strict comparison, a swapped end all differ in some row.  A weakened validator
+    lets an out-of-range user parameter into the run (C07: bad input is reported)."""
+    n = 0
+    for fi in sorted(eng.prog.functions.values(), key=lambda f: f.fid):
+        if fi.module != "params" or fi.cls is not None or fi.is_lambda or not {"lower", "upper"} <= set(fi.all_params):
+            continue
+        val = fi.posparams[0]
+        cfg = eng.cfg(fi)
+        # the return reached when the value is not None and of the right type: the last return of the function (else branch of the type chain)
+        rets = [x for x in eng.prog.own_nodes(fi) if isinstance(x, ast.Return) and x.value is not None and {"lower", "upper"} & mentions(x.value)]
+        n += 1
+        site = eng.where(fi)
+        if len(rets) != 1:
+            rep.unknown(rule, site, "expected one return that compares the value with lower / upper, found %d" % len(rets))
+            continue
+        e = rets[0].value
+        bad = None
+        try:
+            for v in (0, 1, 2):
+                for lo in (None, 1):
+                    for up in (None, 1):
+                        want = (lo is None or v >= lo) and (up is None or v <= up)
+                        try:
+                            got = bool(_eval_small(e, {val: v, "lower": lo, "upper": up}))
+                        except TypeError:
+                            got = "a TypeError (comparison with None)"
+                        if got != want and bad is None:
+                            bad = (v, lo, up, got, want)
+        except AnalysisError as ex:
+            rep.unknown(rule, site, "range expression `%s` not evaluable over the table: %s" % (short(e), ex))
+            continue
+        if bad is None:
+            rep.ok(rule, site, "`%s` equals (lower is None or v >= lower) and (upper is None or v <= upper) on all 12 rows" % short(e, 60))
+        else:
+            rep.bad(rule, eng.where(fi, rets[0]), "%s|range-test-wrong" % fi.fid,
+                    "`%s` answers %s for value=%s, lower=%s, upper=%s (must be %s): an out-of-range parameter is accepted / a valid one refused" % (short(e, 60), bad[3], bad[0], bad[1], bad[2], bad[4]))
+    rep.require_count(rule, "range validators", n, 2)
+
+
+def rule_check_all_params_reports_every_failure(eng, rep, rule="C07-5d.every-parameter-that-fails-its-check-is-reported"):
+    """ParameterList.check_all_params: inside the loop over the stored parameters the false edge of `check_param(key, ..)` appends the loop's key to a list, and the
+    method returns (that list is empty, that list).  Dropping the append (or returning a constant flag) accepts every bad value silently."""
+    fi = eng.fn("params.ParameterList.check_all_params")
+    cfg = eng.cfg(fi)
+    site = eng.where(fi)
+    loops = [x for x in eng.prog.own_nodes(fi) if isinstance(x, ast.For) and isinstance(x.target, ast.Name)]
+    found = None
+    for lp in loops:
+        key = lp.target.id
+        for node in [y for st in lp.body for y in ast.walk(st)]:
+            if isinstance(node, ast.Call) and isinstance(node.func, ast.Attribute) and node.func.attr == "append" and len(node.args) == 1 and ekey(node.args[0]) == key \
+                    and isinstance(node.func.value, ast.Name):
+                gs = [a for (_b, a) in guards_of(cfg, cfg.cfg_node(node))]
+                if any(a.op == "false" and isinstance(a.lhs, ast.Call) and ekey(a.lhs.func).endswith("check_param") and a.lhs.args and ekey(a.lhs.args[0]) == key for a in gs):
+                    found = node.func.value.id
+    if found is None:
+        rep.bad(rule, site, "params.ParameterList.check_all_params|failing-key-not-recorded",
+                "no statement appends the key of a parameter whose check_param(..) is false to the list of bad keys: every bad value is accepted")
+        return
+    rets = [x for x in eng.prog.own_nodes(fi) if isinstance(x, ast.Return) and x.value is not None]
+    okc = bool(rets)
+    for r in rets:
+        v = r.value
+        if not (isinstance(v, ast.Tuple) and len(v.elts) == 2):
+            okc = False
+            continue
+        flag, lst = v.elts
+        flag_ok = (isinstance(flag, ast.Compare) and len(flag.ops) == 1 and isinstance(flag.ops[0], ast.Eq) and ekey(flag.left) == "len(%s)" % found and const_value(flag.comparators[0]) == 0) \
+            or (isinstance(flag, ast.UnaryOp) and isinstance(flag.op, ast.Not) and ekey(flag.operand) == found)
+        lst_ok = found in mentions(lst)
+        if not (flag_ok and lst_ok):
+            okc = False
+    if okc:
+        rep.ok(rule, site, "every key whose check fails is appended to `%s`; the method returns (`%s` is empty, `%s`)" % (found, found, found))
+    else:
+        rep.bad(rule, site, "params.ParameterList.check_all_params|result-not-derived-from-the-failures", "the returned (all_ok, bad_keys) pair is not (len(%s) == 0, %s)" % (found, found))
+
+
 def run(eng, rep):
     rep.explain("C07: call conformance of every resolved internal call (T10); shape of the graceful input-error path in solve (T2); "
                 "guard present for each documented invalid-argument class (frozen table, matched on normalised conditions); "
@@ -2256,6 +2505,8 @@ def run(eng, rep):
     rep.guarded(rule_raises, eng, rep)
     rep.guarded(rule_exit_info_nonnull, eng, rep)
     rep.guarded(rule_validators_test_the_value_itself, eng, rep)
+    rep.guarded(rule_range_validators_test_both_ends, eng, rep)
+    rep.guarded(rule_check_all_params_reports_every_failure, eng, rep)
     rep.guarded(rule_restart_geometry_loop_in_range, eng, rep)
     rep.guarded(rule_coordinate_precondition_established, eng, rep)
     rep.guarded(rule_shapes_validated_before_arithmetic, eng, rep)
@@ -2268,6 +2519,7 @@ def run(eng, rep):
     rep.guarded(rule_main_loop_cycles_make_progress, eng, rep)
     rep.guarded(rule_while_loops_are_bounded, eng, rep)
     rep.guarded(rule_exit_results_are_tested_before_the_loop_goes_round, eng, rep)
+    rep.guarded(rule_exits_are_handed_on_by_controller_methods, eng, rep)
     rep.guarded(rule_orthogonalised_vectors_are_tested_before_normalising, eng, rep)
     rep.guarded(rule_format_conformance, eng, rep)
     from . import c20
